@@ -147,6 +147,18 @@ fn robots(ctx: &Ctx) -> Vec<Parameters> {
     for (_, p) in presets() {
         out.push(p);
     }
+    // forward kinematics does not depend on the declared number of driven joints: dof = 5 (also with the J6 sign 0 the
+    // YAML loader produces) on the first two geometries
+    for g in geos.iter().take(2) {
+        for s in sign_patterns(false) {
+            for o in offset_sets() {
+                out.push(make(g.0, g.1, g.2, g.3, s, o, 5));
+            }
+        }
+    }
+    // one parameter almost zero (every third ladder magnitude)
+    let lad: Vec<f64> = crate::common::ladder::ladder(&["kinematics_impl.rs"]).into_iter().step_by(3).collect();
+    out.extend(tiny_param_robots(&lad, &[6]));
     // forward kinematics is defined for any parameter values: zero and negative lengths too
     for (a1, a2, b, c) in [
         (0.1, -0.1, 0.0, [0.5, 0.0, 0.6, 0.1]),
